@@ -26,6 +26,26 @@ class C20(Spec):
             "each body runs through the real http process_commands and, on an identical fresh server, command by command on an ordinary session: entry i must be command i's own error text, first pushed line, or `empty`. "
             "non-trivial = the body has a refused and an accepted command; distinct by trace hash")
 
+    def extra_stage(self, tier, seed):
+        """the same kind of bodies through the REAL http front end (tiny_http server loop of http_ops::start_http_client) over a socket"""
+        from vlib import transport
+        setup = ["T 1", "C 1 auth adm pw", "C 1 create-db t tok", "C 1 use-db t tok", "C 1 set k 1", "C 1 set n 5"]
+        bodies = ["get k", "use-db t tok;get k", "use-db t tok;get k;", "use-db t tok; ;get k", ";use-db t tok;get k", "use-db t bad;get k", "auth adm pw;use-db t tok;keys", "auth adm bad;keys",
+                  "use-db t tok;set k 7;get k", "use-db t tok;set-safe k 0 stale;get k", "use-db t tok;increment n;get n", "use-db t tok;increment k x;get k", "use-db t tok;remove k;get k",
+                  "use-db t tok;get $$token;get k", "use-db t tok;bogus;get k", "use-db t tok;watch k;set k 9;get k", "auth adm pw;create-db t tok;use-db t tok;get k", "use-db t tok;get-safe k;get-safe zz", "",
+                  " ", ";;", "use-db t tok;set two words value;get two"]
+        scripts = []
+        step = 1 if tier != "quick" else 2
+        for i in range(0, len(bodies), 6):
+            sc = list(setup)
+            for b in bodies[i:i + 6][::1]: sc += [f"H {b}", "C 1 get k"]
+            sc += ["DUMP"]
+            scripts.append(sc)
+        for a in bodies[::step]:
+            for b in bodies[1:8:step]:
+                scripts.append(list(setup) + [f"H {a}", f"H {b}", "C 1 get $connections", "DUMP"])
+        return transport.stage("C20", scripts)
+
     def corpus(self):
         return [("stale-line-shifts", self.case(["get k", "auth adm pw", "use-db t tok", "get k"], "get k; auth adm pw; use-db t tok; get k"))]
 
